@@ -44,6 +44,8 @@ func isXMLPart(name string) bool {
 
 // parseXML builds a generic tree with Go's strict decoder; an error means ill-formed.
 func parseXML(data []byte) (*XNode, error) {
+	// a byte order mark at the very start of the entity is not content (XML 1.0, 4.3.3)
+	data = bytes.TrimPrefix(data, []byte("\xef\xbb\xbf"))
 	dec := xml.NewDecoder(bytes.NewReader(data))
 	dec.Strict = true
 	var stack []*XNode
